@@ -21,8 +21,8 @@ RULE = ("two real dilated wormholes with dilate(ping_interval=x), x in 0.5..60 s
         "virtual timestamps. Non-trivial = at least 3 answered pings (responsive) or a blackhole that "
         "took effect on a CONNECTED pair; distinct = (x, behaviour, t0, latencies) tuples.")
 ASSUMPTIONS = ["Noise stand-in", "virtual time: all deadlines are decided on the simulated clock"]
-FLOORS = {"quick": {"pongs": 3000, "silent_cases_dropped": 60, "responsive_intervals": 3000, "stops_with_lingering_connection": 6, "neighbour_connection_losses": 200},
-          "thorough": {"pongs": 100000, "silent_cases_dropped": 2500, "responsive_intervals": 110000, "stops_with_lingering_connection": 300, "neighbour_connection_losses": 5000}}
+FLOORS = {"quick": {"pongs": 3000, "silent_cases_dropped": 60, "responsive_intervals": 3000, "stops_with_lingering_connection": 6, "neighbour_connection_losses": 200, "silent_with_a_little_unsent_data": 10},
+          "thorough": {"pongs": 100000, "silent_cases_dropped": 2500, "responsive_intervals": 110000, "stops_with_lingering_connection": 300, "neighbour_connection_losses": 5000, "silent_with_a_little_unsent_data": 300}}
 
 class Bulk:
     """push producer that keeps a subchannel's sender saturated (writes whenever it is allowed to)"""
@@ -114,6 +114,10 @@ def cases(tier, seed, prep=None):
     # up its interval timer is served late; the peer still answers every ping at once and must not be dropped
     for i in range(30 if tier == "quick" else 800):
         out.append({"seed": seed * 1000003 + 1670000 + i, "kind": "responsive-suspend", "sleep": [0.6, 0.95, 1.5, 3.0, 10.0][i % 5], "nsleeps": 1 + i % 3})
+    # the peer goes silent while the Leader's application has written just a little more than the kernel takes: a few KiB
+    # sit unsent in the transport, well below the mark at which Outbound would be paused
+    for i in range(24 if tier == "quick" else 700):
+        out.append({"seed": seed * 1000003 + 1690000 + i, "kind": "silent", "trickle": True})
     # a second dilated wormhole pair in the same process (two transfers at once) whose connection keeps breaking:
     # the pair under test is healthy and answers every ping, and must be left alone
     for i in range(30 if tier == "quick" else 800):
@@ -218,6 +222,41 @@ def run_case(spec):
     lead = dp.leader()
     fol = "B" if lead == "A" else "A"
     lm, fm = dp.manager(lead), dp.manager(fol)
+    trickle = {"sc": None, "written": 0, "on": False, "unsent_seen": 0}
+    if spec.get("trickle"):
+        r.blackhole_sndbuf = rng.choice([2 ** 14, 2 ** 16, 2 ** 18])
+        flt = RecFactory(dp, "%s.accept4" % fol)
+        dp.dw[fol].listener_for("trickle").listen(flt)
+        gott = []
+        dp.dw[lead].connector_for("trickle").connect(RecFactory(dp, "%s.open4" % lead)).addCallback(gott.append)
+        sch.run(400, until=lambda: bool(gott))
+        if gott:
+            trickle["sc"] = gott[0].transport
+        base_hook = sch.hook
+
+        def trickle_hook():
+            base_hook()
+            if trickle["on"] and trickle["sc"] is not None and trickle["written"] < r.blackhole_sndbuf + 40000 and not trickle["unsent_seen"] \
+                    and dp.selected_link() is silent_link:
+                c_ = getattr(lm, "_connection", None)
+                tr_ = getattr(c_, "transport", None)
+                unsent = len(getattr(tr_, "outbuf", b"")) if tr_ is not None else -1
+                if unsent == 0:
+                    try:
+                        n_ = rng.choice([1000, 4000, 16000])
+                        trickle["sc"].write(rng.randbytes(n_))
+                        trickle["written"] += n_
+                    except Exception:
+                        trickle["on"] = False
+                elif unsent > 0:
+                    # (only what stays behind after the transport had its turns to hand it to the kernel)
+                    if trickle.get("last") == unsent:
+                        trickle["same"] = trickle.get("same", 0) + 1
+                    else:
+                        trickle["last"], trickle["same"] = unsent, 0
+                    if trickle["same"] >= 25:
+                        trickle["unsent_seen"] = unsent
+        sch.hook = trickle_hook
     bulk = None
     if spec.get("bulk"):
         r.blackhole_sndbuf = 2 ** 18     # a silent peer acknowledges nothing: the send buffer fills and stays full
@@ -278,6 +317,7 @@ def run_case(spec):
         silent_link = dp.selected_link()
         if silent_link is not None and dp.both_connected():
             r.blackhole(silent_link)
+            trickle["on"] = True
         else:
             silent_link = None
         run_until(t0 + 6 * x + 5)
@@ -493,6 +533,7 @@ def run_case(spec):
                          "stops_with_lingering_connection": int(spec["kind"] == "close-lingering" and bool(lingering.get("unsent")) and lingering.get("state_after") == "STOPPING"),
                          "bulk_cases": int(bulk is not None), "bulk_bytes_written": bulk.written if bulk else 0,
                          "pings_sent_while_outbound_paused": paused_pings[0],
-                         "neighbour_connection_losses": nb["cuts"]},
+                         "neighbour_connection_losses": nb["cuts"],
+                         "silent_with_a_little_unsent_data": int(bool(spec.get("trickle")) and r.blackhole_sndbuf is not None and r.blackhole_sndbuf < trickle["written"] < r.blackhole_sndbuf + 65536)},
             "sample": {"spec": spec, "x": x, "leader": lead, "pongs": len(pongs), "drops": [round(t, 3) for t in drops], "t0": t0,
                        "latencies": lat_log[:6], "leader_events": [(round(t, 2), w) for (t, w, e) in ev_l][:14]}}
